@@ -444,6 +444,7 @@ func init() {
 		add("bip32.ExtendedKey."+m, func(c *memCtx) {
 			k := c.xkey(someXKey(c.r, c.r.coin(2, 3)))
 			idx := randIdx(c.r)
+			pth := c.r.pick("0/1/2", "", "0", "3/4", "0'/1", "2147483648/1", "x/y") // incl. the empty path (returns the receiver) and failing ones
 			c.call(true, func() []interface{} {
 				switch m {
 				case "IsPrivate":
@@ -471,10 +472,10 @@ func init() {
 				case "IsForNet":
 					return []interface{}{k.IsForNet(&chaincfg.MainNet), k.IsForNet(&chaincfg.TestNet)}
 				case "DeriveChildFromPath":
-					x, e := k.DeriveChildFromPath("0/1/2")
+					x, e := k.DeriveChildFromPath(pth)
 					return []interface{}{x, e}
 				}
-				x, e := k.DerivePublicKeyFromPath("3/4")
+				x, e := k.DerivePublicKeyFromPath(pth)
 				return []interface{}{x, e}
 			})
 		})
